@@ -8,7 +8,7 @@ use crate::c03::{any_w, new_interp, u};
 use crate::util::*;
 use revm_interpreter::instructions::{contract, host};
 use revm_interpreter::{InstructionResult, Interpreter, InterpreterAction};
-use revm_primitives::{LatestSpec, U256};
+use revm_primitives::{ByzantiumSpec, IstanbulSpec, LatestSpec, PetersburgSpec, U256};
 
 fn static_interp(gas: u64, is_eof: bool, words: &[[u64; 4]; 8]) -> Interpreter {
     let mut it = new_interp(gas);
@@ -55,6 +55,13 @@ static_reject!(c10_create, contract::create::<false, NoHost, LatestSpec>, false)
 static_reject!(c10_create2, contract::create::<true, NoHost, LatestSpec>, false);
 static_reject!(c10_selfdestruct, host::selfdestruct::<NoHost, LatestSpec>, false);
 static_reject!(c10_eofcreate, contract::eofcreate::<NoHost>, true);
+// static mode exists since Byzantium: the guard must not hide behind a later fork's gate
+static_reject!(c10_sstore_byzantium, host::sstore::<NoHost, ByzantiumSpec>, false);
+static_reject!(c10_sstore_petersburg, host::sstore::<NoHost, PetersburgSpec>, false);
+static_reject!(c10_sstore_istanbul, host::sstore::<NoHost, IstanbulSpec>, false);
+static_reject!(c10_create_byzantium, contract::create::<false, NoHost, ByzantiumSpec>, false);
+static_reject!(c10_create2_petersburg, contract::create::<true, NoHost, PetersburgSpec>, false);
+static_reject!(c10_selfdestruct_byzantium, host::selfdestruct::<NoHost, ByzantiumSpec>, false);
 
 /// CALL with a non-zero value inside a static frame: CallNotAllowedInsideStatic, host never reached.
 #[kani::proof]
